@@ -589,7 +589,12 @@ std::optional<Node> parse_with(const P& p, const Job& j, std::string& stream_tex
         if (j.ctx == 4) { CtxMO c; tl_ctx_addr = &c; auto r = dflt_opts ? p.context_parse(c, buf, cs) : p.context_parse(c, o, buf, cs); L.ctxmut = c.mut; return r; }
         { CtxMO c; tl_ctx_addr = &c; auto r = dflt_opts ? p.context_parse(std::move(c), buf, cs) : p.context_parse(std::move(c), o, buf, cs); L.ctxmut = c.mut; return r; }
     };
-    if (j.buf == 1) { buffers::string_buffer b{std::string(j.bytes)}; return go(b); }
+    if (j.buf == 1)
+    {
+        // both constructors of string_buffer: from a std::string, and (texts without NUL, odd length) from a C string
+        if (j.bytes.find('\0') == std::string::npos && j.bytes.size() % 2 == 1) { buffers::string_buffer b(j.bytes.c_str()); return go(b); }
+        buffers::string_buffer b{std::string(j.bytes)}; return go(b);
+    }
     if (j.buf == 3) { checked_buffer b(j.bytes, 0); return go(b); }
 #ifdef VH_CSTR
     if (j.buf == 2)
